@@ -287,6 +287,9 @@ type repoManager struct {
 	branchToUUID map[string]dvid.UUID
 	branchMutex  sync.RWMutex
 
+	// Serializes the check-and-add of new versions.
+	newVersionMutex sync.Mutex
+
 	// Counters that provide the local IDs of the next new repo, version, or data instance.
 	// Valid counters should be >= 1, so we can distinguish between valid ids and the
 	// default zero value.
@@ -1815,9 +1818,16 @@ func (m *repoManager) newVersion(parent dvid.UUID, note string, branchname strin
 		return dvid.NilUUID, ErrInvalidVersion
 	}
 
+	// The branch check below and the addition of the child must not interleave with another
+	// request for a new version, otherwise concurrent requests all pass the check.
+	m.newVersionMutex.Lock()
+	defer m.newVersionMutex.Unlock()
+
 	node.RLock()
-	defer node.RUnlock()
-	if !node.locked {
+	locked := node.locked
+	sisters := append([]dvid.VersionID(nil), node.children...)
+	node.RUnlock()
+	if !locked {
 		return dvid.NilUUID, ErrBranchUnlockedNode
 	}
 
@@ -1826,7 +1836,7 @@ func (m *repoManager) newVersion(parent dvid.UUID, note string, branchname strin
 	if branchname == "" || branchname == node.branch {
 		// check other children nodes
 		branchname = node.branch
-		for _, sister := range node.children {
+		for _, sister := range sisters {
 			// check if there is already a branch here
 			r.RLock()
 			r.dag.RLock()
@@ -1873,15 +1883,17 @@ func (m *repoManager) newVersion(parent dvid.UUID, note string, branchname strin
 	m.repos[childUUID] = r
 	m.repoMutex.Unlock()
 
-	node.children = append(node.children, childV)
-	node.updated = time.Now()
-
 	r.Lock()
 	r.dag.Lock()
 	r.dag.nodes[childV] = child
 	r.dag.Unlock()
 	r.updated = time.Now()
 	r.Unlock()
+
+	node.Lock()
+	node.children = append(node.children, childV)
+	node.updated = time.Now()
+	node.Unlock()
 
 	// Notify data instances that we have a new child in case they have to do some kind of initialization.
 	r.RLock()
